@@ -10,7 +10,7 @@ ENGINES = [
     dict(name="kani-harnesses", path="/verif/vk/kani_unit.py", serves_properties=["C01", "C02", "C08", "C09"],
          kind_free_text="cargo kani on the real crate; harness files /verif/kani/*_proofs.rs are compiled into the defining modules through cfg(kani) hooks; "
                         "loop-free full-domain harnesses are complete, harnesses with symbolic strings are bounded stand-ins and never counted as proved"),
-    dict(name="verus-units", path="/verif/vk/verus_unit.py", serves_properties=["C01", "C02", "C03", "C08", "C09", "C10", "C13", "C15", "C19"],
+    dict(name="verus-units", path="/verif/vk/verus_unit.py", serves_properties=["C01", "C02", "C03", "C08", "C09", "C10", "C13", "C15", "C16", "C19"],
          kind_free_text="mechanical extraction of the real functions (vk/extract.py, rules R1-R8) + contracts/<unit>.vc, discharged by Verus 0.2026.09.13 / Z3; "
                         "every diagnostic is mapped back to a named obligation (function::label)"),
 ]
@@ -74,6 +74,14 @@ CHECKS = {
         level_note="Trusted: the $conflicts_ listing (iterator pipeline), the arbiter send loop, format! texts (uninterpreted with three axioms). NOT decided: "
                    "queue order across several writes, redelivery on arbiter reconnect (register_arbiter), multi-node resolve path, replicas.",
     ),
+    "C16": dict(
+        engine="verus-units", design_ref="DESIGN.md §5 C16", technique="deductive verification (Verus/Z3) of function contracts and representation invariants on extracted real code",
+        text="Identifier-freshness clause only, for all states: generate_key_id returns the existing id of a known key (maps unchanged) or a fresh id for a new "
+             "key and keeps keys_map / id_keys_map inverse of each other with pairwise distinct ids; Databases::next_db_id / create_temp_db hand out a database id "
+             "that is not registered, and add_database keeps 'every database is filed under its own id' (hence no two databases share an id).",
+        level_note="The crash/restart half of C16 (flag, key map and oplog write order under kill at any instant) is NOT decided. Invariants on the maps loaded "
+                   "from disk are preconditions. Sequential semantics.",
+    ),
     "C19": dict(
         engine="verus-units", design_ref="DESIGN.md §5 C19", technique="deductive verification (Verus/Z3) of function contracts on extracted real code",
         text="Sequential half, for all states and versions: on a newer-strategy database set_key_value / apply_change_to_db_try_fix_conflicts / "
@@ -109,7 +117,6 @@ NOT_APPLICABLE = {
     "C11": "Crash points of a writer are not expressible as pre/postconditions of a call; neither verifier has a crash-consistent file model.",
     "C12": "contract not completed yet (in progress)",
     "C14": "A bound on inter-node traffic is a global ranking argument over the dispatcher and the replication loop on several nodes.",
-    "C16": "contract not completed yet (in progress)",
     "C17": "The counter's balance is decided in the use-db arm of the dispatcher (previous selection is not released there); inc/dec/left contracts alone do not carry the property.",
     "C18": "Both S3 strategies are async AWS-SDK network code inside a tokio runtime.",
     "C20": "Alignment depends on which handlers push on the client channel while also returning an error - a fact about the dispatcher; process_commands alone cannot be given a contract that is not an assumption of the conclusion.",
